@@ -250,14 +250,14 @@ func (r *Run) Finish() int {
 		cov["distinct_nontrivial"] = len(r.distinct)
 	}
 	evd := map[string]any{
-		"property_id": r.Property,
-		"tier":        r.Tier,
-		"seed":        Seed(),
-		"level":       r.Level,
-		"coverage":    cov,
-		"assumptions": r.Assume,
-		"wall_s":      time.Since(r.start).Seconds(),
-		"violations":  len(r.violations),
+		"property_id":            r.Property,
+		"tier":                   r.Tier,
+		"seed":                   Seed(),
+		"level":                  r.Level,
+		"coverage":               cov,
+		"assumptions":            r.Assume,
+		"wall_s":                 time.Since(r.start).Seconds(),
+		"violations":             len(r.violations),
 		"known_findings_matched": r.known,
 	}
 	if r.Assume == nil {
